@@ -53,10 +53,11 @@ const (
 	ansNever            // never answer
 	ansDuplicate        // answer immediately, twice
 	ansUnknownID        // answer immediately with an id nobody registered, then properly
+	ansEarly            // post an answer under the own session id 1 s into the poll, offer or not; then answer properly
 	nAnsBeh
 )
 
-var ansBehName = []string{"prompt", "at-timeout", "late", "never", "duplicate", "unknown-id"}
+var ansBehName = []string{"prompt", "at-timeout", "late", "never", "duplicate", "unknown-id", "early"}
 
 type proxyRec struct {
 	idx     int
@@ -119,14 +120,15 @@ type clientRec struct {
 }
 
 type world struct {
-	ctx     *BrokerContext
-	ipc     *IPC
-	proxies []*proxyRec
-	clients []*clientRec
-	probe   *clientRec
-	debug   string
-	gauge   float64
-	probed  bool
+	bridgeList string
+	ctx        *BrokerContext
+	ipc        *IPC
+	proxies    []*proxyRec
+	clients    []*clientRec
+	probe      *clientRec
+	debug      string
+	gauge      float64
+	probed     bool
 }
 
 func newWorld() *world {
@@ -138,7 +140,7 @@ func newWorld() *world {
 	if err := ctx.InstallBridgeListProfile(strings.NewReader(bl), "", ""); err != nil {
 		panic(err)
 	}
-	w := &world{ctx: ctx, ipc: &IPC{ctx}}
+	w := &world{ctx: ctx, ipc: &IPC{ctx}, bridgeList: bl}
 	if !keepMetricsOrder {
 		// Critical sections of metrics.lock only increment counters and insert into address sets;
 		// these operations commute and none of the C02/C03/C04/C06/C14 oracles reads them, so their
@@ -186,6 +188,23 @@ func pollBody(p *proxyRec) []byte {
 func (w *world) runProxy(p *proxyRec) {
 	vs.Sleep(p.arrive)
 	p.pollStart = vs.Elapsed()
+	if p.beh == ansEarly {
+		// a proxy that posts an answer for its own session id while its poll is still pending
+		early := &answerRec{sid: p.sid, body: "ans|" + p.sid + "#early|"}
+		p.answers = append(p.answers, early)
+		vs.GoRole("early-answer-"+p.sid, vs.RoleRequest, func() {
+			vs.Sleep(time.Second)
+			body, _ := messages.EncodeAnswerRequest(early.body, p.sid)
+			early.start = vs.Elapsed()
+			var r []byte
+			early.err = w.ipc.ProxyAnswers(messages.Arg{Body: body}, &r)
+			early.end = vs.Elapsed()
+			if early.err == nil {
+				early.success, _ = messages.DecodeAnswerResponse(r)
+			}
+			early.done = true
+		})
+	}
 	var resp []byte
 	err := w.ipc.ProxyPolls(messages.Arg{Body: pollBody(p), RemoteAddr: p.remote}, &resp)
 	p.pollEnd = vs.Elapsed()
@@ -236,6 +255,8 @@ func (w *world) runProxy(p *proxyRec) {
 		answer(p.sid, "#2")
 	case ansUnknownID:
 		answer("nobody", "#x")
+		answer(p.sid, "")
+	case ansEarly:
 		answer(p.sid, "")
 	}
 }
@@ -440,4 +461,12 @@ func sdpOf(offer string) string {
 		return offer[i:]
 	}
 	return offer[i : i+j]
+}
+
+// installPatterns configures the relay patterns the way main() does: through InstallBridgeListProfile
+// (with the world's bridge list), not by writing the fields.
+func (w *world) installPatterns(allowed, presumed string) {
+	if err := w.ctx.InstallBridgeListProfile(strings.NewReader(w.bridgeList), allowed, presumed); err != nil {
+		panic(err)
+	}
 }
